@@ -1,3 +1,4 @@
+import Agd.Tie.TrC02
 import Agd.Lemmas.Filter
 import Agd.Tie.C02
 /-!
@@ -1432,3 +1433,10 @@ theorem blocked_leaks_upstream_counterexample :
 #print axioms blocked_leaks_upstream_counterexample
 
 end Agd.Filter
+#print axioms Agd.Tie.TrC02.translation_complete
+#print axioms Agd.Tie.TrC02.blocked_never_upstream
+#print axioms Agd.Tie.TrC02.fallback_is_servfail
+#print axioms Agd.Tie.TrC02.request_over_response
+#print axioms Agd.Tie.TrC02.allowed_and_rewritten
+#print axioms Agd.Tie.TrC02.response_stage
+#print axioms Agd.Tie.TrC02.filter_choice
